@@ -32,7 +32,7 @@ _EDGES = {(a, b) for a in range(8) for b in range(8) if sum(abs(x - y) for x, y 
 SYM48 = [p for p in itertools.permutations(range(8)) if all((p[a], p[b]) in _EDGES for a, b in _EDGES)]
 TOL = 1e-7  # the merge tolerance the property speaks of
 CLEAR = 1e-3  # margin (difference of unit-normal components) that makes a view "clear"
-TIE = 1e-9  # below this gap between the 2nd and 3rd best aligned triangle float and exact arithmetic may differ
+TIE = 1e-9  # below this gap (2nd vs 3rd best aligned triangle; cosine of two halves vs 0.5) float and exact arithmetic may differ
 
 
 def _fr(x) -> str:
@@ -334,6 +334,9 @@ def _clear_view(pts, obs, ceil) -> Optional[Dict[str, str]]:
     p = np.array(pts, dtype=float)
     o, t, l = _view_dirs(p, obs, ceil)
     tri = {s: _tri_normals(p, cyc) for s, cyc in BM_CYCLE.items()}
+    for n in tri.values():  # the halves of every side well within the 60 degree limit, whichever diagonal splits it
+        if float(np.dot(n[0], n[1])) < 0.6 or float(np.dot(n[2], n[3])) < 0.6:
+            return None
     remaining = list(BM_CYCLE)
     chosen: Dict[str, str] = {}
     for name, d in (("front", o), ("back", -o), ("top", t), ("bottom", -t), ("left", l), ("right", -l)):
@@ -419,9 +422,7 @@ class C18(core.Check):
         "initial numbering given the same hull, the 48 relabellings map sides onto sides, and uniqueness of the canonical "
         "numbering among them. Only validator/oracle-checked: that the returned numbering satisfies Canonical "
         "(front/top best aligned, all eight triple products positive) and is one of the 48 relabellings of the block in "
-        "clear views, and that scipy's hull is a hull. Known finding (proved counterexample "
-        "T_C18_relabelling_counterexample): in dubious views of blocks with warped sides the result can be a permutation "
-        "of the points that is not a relabelling of the block."
+        "clear views (oracle: in every view), and that scipy's hull is a hull."
     )
 
     # ------------------------------------------------------------------ generators
@@ -612,7 +613,10 @@ class C18(core.Check):
             keys = sorted(float(np.dot(t.normal, vector)) for t in triangles)
             if len(keys) >= 3:
                 record["gap"] = min(record.get("gap", 1.0), keys[-2] - keys[-3])
-            return real_aligned(self, triangles, vector)
+            res = real_aligned(self, triangles, vector)
+            if len(res) == 2:  # distance of the two halves' angle from the 60 degree limit of Quadrangle
+                record["gap"] = min(record.get("gap", 1.0), abs(float(np.dot(res[0].normal, res[1].normal)) - 0.5))
+            return res
 
         results = []
         vp.ConvexHull = hull
@@ -853,7 +857,7 @@ class C18(core.Check):
                     break
             else:
                 # same points, but the sides of the result are not the sides of the block (e.g. top turned by 90 degrees
-                # against bottom): never acceptable in a clear view; in dubious views of warped blocks a known finding
+                # against bottom; repaired by the 60 degree limit between the halves of a face)
                 out.append(
                     {
                         "site": site + ("block-restructured-in-clear-view" if clear else "block-restructured"),
